@@ -50,12 +50,25 @@ def run(ctx):
         created.append((a[0], a[1], a[2] if len(a) > 2 else k.get('attrib', {})))
         return stub('Element<new>')
 
-    def th_add(it):
+    def th_add(it, loaded_plain=False):
         del created[:]
         it.ext_hooks['xml.etree.ElementTree.SubElement'] = sub_el
         root = _wrap(it, Elem('svg'), {})
-        doc = it.new_obj('document.Document')
-        doc.attrs['tree'] = stub('tree', getroot=lambda it2, a, k: root, iter=lambda it2, a, k: [root])
+        tree = stub('tree', getroot=lambda it2, a, k: root, iter=lambda it2, a, k: [root])
+        # the Document is built by its own constructor (whatever it records about itself is there): from scratch, or loaded from a
+        # file whose <svg> root carries NO namespace declaration (root.tag == 'svg')
+        if loaded_plain:
+            root.attrs['tag'] = 'svg'
+        it.ext_hooks['xml.etree.ElementTree.parse'] = lambda it2, a, k: tree
+        it.ext_hooks['xml.etree.ElementTree.ElementTree'] = lambda it2, a, k: tree
+        it.ext_hooks['xml.etree.ElementTree.Element'] = lambda it2, a, k: root
+        it.ext_hooks['os.path.abspath'] = lambda it2, a, k: a[0]
+        try:
+            doc = it.instantiate(mdl.cls('document.Document'), ['f.svg'] if loaded_plain else [], {})
+        except (Undecidable, PyRaise):
+            doc = it.new_obj('document.Document')
+        doc.attrs['tree'] = tree
+        doc.attrs['root'] = root
         it.call_hooks['path.Path.d'] = lambda it2, a, k: 'NEW-D'
         p = it.construct('path.Path', it.construct('path.Line', Rat.csym('a'), Rat.csym('b')))
         attribs = {'stroke': 'red', 'd': 'OLD-D', 'id': 'x1'}
@@ -63,7 +76,9 @@ def run(ctx):
         it.call_method(doc, 'add_group', {'id': 'g1'})
         return list(created), attribs
     try:
-        paths = explore(ctx.model, th_add, {})
+        paths = [p_ for p_ in explore(ctx.model, th_add, {}) if p_.raised is None]
+        if not paths:
+            raise Undecidable('add_path / add_group raise on a Document created from scratch')
         (c_path, c_group), attribs = paths[0].value[0][:2], paths[0].value[1]
         facts['doc_path_tag'] = c_path[1]
         facts['doc_group_tag'] = c_group[1]
@@ -466,6 +481,16 @@ def run(ctx):
                        detail='' if ok else 'the writer serialises <%s> (expanded %s); this reader does not match it' % forms,
                        where='svgpathtools/*', sample={'serialised': forms[0], 'expanded': forms[1]})
     # a Document's own queries see what add_path created (F21)
+    # ... also in a Document loaded from a file whose root has no namespace declaration
+    try:
+        lp = [p_ for p_ in explore(ctx.model, lambda it: th_add(it, True), {}) if p_.raised is None]
+        if lp:
+            (lp_path, lp_group) = lp[0].value[0][:2]
+            okl = doc_reader_matches(lp_path[1]) and isinstance(lp_group[1], str) and lp_group[1] == lp_path[1][:-4] + 'g'
+            ctx.record('R18.1', fadd.qualname, 'in a loaded document without xmlns, elements created by add_path/add_group are found by the Document\'s own queries', okl,
+                       detail='' if okl else 'add_path creates %r, add_group %r: the traversal does not look for these' % (lp_path[1], lp_group[1]), where=where(fadd))
+    except (Undecidable, IndexError):
+        pass
     t = facts.get('doc_path_tag')
     ok = isinstance(t, str) and doc_ns is not None and t == '{%s}path' % doc_ns and facts.get('doc_group_tag') == '{%s}g' % doc_ns
     ctx.record('R18.1', fadd.qualname, 'elements created by add_path/add_group are in the namespace the Document searches', ok,
